@@ -122,8 +122,26 @@ def run(ctx):
                         drops.append(bb)
             ctx.ob("R07.1", "write-end-released-before-read", bool(drops) and dominated_by_blocks(os_start, rb, drops, start=fm.parent_entry), os_start.loc(rb),
                    "the parent's copy of the status write end must be dropped before the blocking read (otherwise EOF never arrives); drops at %s" % sorted(drops))
-            # both ends close-on-exec before fork
+            # both ends close-on-exec before fork: marked here, or created that way by the pipe function itself
+            def born_cloexec(gpath, seen=()):
+                g = prog.fns.get(gpath)
+                if g is None or gpath in seen:
+                    return False
+                Tg = M.Terms(g)
+                for bb_, t_ in g.calls():
+                    nm_ = M.callee_str(t_["f"])
+                    if nm_ == "libc::pipe2":
+                        fl = const_of(Tg.operand(t_["args"][1]))
+                        if fl is not None and fl & 0o2000000:      # O_CLOEXEC
+                            return True
+                    if nm_ in pipefns and nm_ != gpath and born_cloexec(nm_, seen + (gpath,)):
+                        return True
+                return False
+            born = born_cloexec(M.callee_str(pipes[0][1]["f"]))
             for k in (0, 1):
+                if born:
+                    ctx.ob("R07.1", "status-pipe.%d.cloexec-before-fork" % k, True, os_start.loc(pipes[0][0]), "the status pipe is created with pipe2(O_CLOEXEC)")
+                    continue
                 e = []
                 for bb, t in os_start.calls_to(lambda f: M.callee_str(f) == "popen::os::set_inheritable"):
                     a = [T.operand(x) for x in t["args"]]
@@ -368,4 +386,4 @@ def drop_is_flagged(fn, bb):
 def run_thorough(ctx):
     # whole-program: raw descriptor creation / duplication only inside owning wrappers
     deep_census(ctx, "R07.5", ["dup", "dup3", "open", "openat", "open64", "socket", "creat", "pipe", "pipe2"],
-                {"pipe": ["posix::pipe"], "open64": ["std::sys::fs::unix::File::open_c", "std::sys::fs::unix::File::open_c::{closure#0}"]})
+                {"pipe": ["posix::pipe"], "pipe2": ["posix::pipe"], "open64": ["std::sys::fs::unix::File::open_c", "std::sys::fs::unix::File::open_c::{closure#0}"]})
